@@ -156,6 +156,9 @@ tuple_flat!(0);
 tuple_flat!(0, 1);
 tuple_flat!(0, 1, 2);
 tuple_flat!(0, 1, 2, 3);
+tuple_flat!(0, 1, 2, 3, 4);
+tuple_flat!(0, 1, 2, 3, 4, 5);
+tuple_flat!(0, 1, 2, 3, 4, 5, 6);
 
 /// mutable access to the guards inside a container-level guard, in declared order
 pub trait FlatMut<T> {
@@ -184,6 +187,9 @@ tuple_flat_mut!(0);
 tuple_flat_mut!(0, 1);
 tuple_flat_mut!(0, 1, 2);
 tuple_flat_mut!(0, 1, 2, 3);
+tuple_flat_mut!(0, 1, 2, 3, 4);
+tuple_flat_mut!(0, 1, 2, 3, 4, 5);
+tuple_flat_mut!(0, 1, 2, 3, 4, 5, 6);
 
 #[derive(Clone, Copy, Debug, PartialEq, Eq, serde::Serialize, serde::Deserialize)]
 pub enum DKind {
@@ -239,11 +245,11 @@ pub struct DPlan {
 	pub iter_panics_after: Option<u8>,
 }
 
-pub const CONT_NAMES: [&str; 10] = ["Vec", "Box<[_]>", "[_;0]", "[_;1]", "[_;2]", "[_;3]", "[_;4]", "(_,)", "(_,_)", "(_,_,_)"];
+pub const CONT_NAMES: [&str; 14] = ["Vec", "Box<[_]>", "[_;0]", "[_;1]", "[_;2]", "[_;3]", "[_;4]", "(_,)", "(_,_)", "(_,_,_)", "(_;4)", "(_;5)", "(_;6)", "(_;7)"];
 
 pub fn gen_plan(src: &mut Src<'_>) -> DPlan {
 	let leaf = src.pick(3) as u8;
-	let cont = src.pick(10) as u8;
+	let cont = src.pick(14) as u8;
 	let n = match cont {
 		0 | 1 => src.pick(5),
 		2 => 0,
@@ -253,7 +259,11 @@ pub fn gen_plan(src: &mut Src<'_>) -> DPlan {
 		6 => 4,
 		7 => 1,
 		8 => 2,
-		_ => 3,
+		9 => 3,
+		10 => 4,
+		11 => 5,
+		12 => 6,
+		_ => 7,
 	};
 	let kinds = [
 		DKind::BoxedNew,
@@ -541,7 +551,11 @@ macro_rules! dispatch_leaf_cont {
 			6 => run_scenario::<$L, [$L; 4]>($plan),
 			7 => run_scenario::<$L, ($L,)>($plan),
 			8 => run_scenario::<$L, ($L, $L)>($plan),
-			_ => run_scenario::<$L, ($L, $L, $L)>($plan),
+			9 => run_scenario::<$L, ($L, $L, $L)>($plan),
+			10 => run_scenario::<$L, ($L, $L, $L, $L)>($plan),
+			11 => run_scenario::<$L, ($L, $L, $L, $L, $L)>($plan),
+			12 => run_scenario::<$L, ($L, $L, $L, $L, $L, $L)>($plan),
+			_ => run_scenario::<$L, ($L, $L, $L, $L, $L, $L, $L)>($plan),
 		}
 	};
 }
